@@ -49,3 +49,88 @@ const AB: [&str; 2] = ["a", "b"];
 #[test] fn nb_peg_slice() { sweep("nb_peg_slice", &AB, 9, |s| cmp::<GSlice<'_>, XSlice>(s)); }
 #[test] fn nb_peg_leaf() { sweep("nb_peg_leaf", &["a", "B", "*", "/", "\r", "\n", "é", "😀"], 5, |s| cmp::<GLeaf<'_>, XLeaf>(s)); }
 #[test] fn nb_peg_nest() { sweep("nb_peg_nest", &AB_, 8, |s| cmp::<GNest, XNest>(s)); }
+
+// ---- C17: repetition iterators yield the iterations in input order ------------------------------------------------
+#[test]
+fn nb_acc_rep() {
+    type G<'i> = RepMin<Choice2<A, B>, WS, 1, 0>;            // (a | b)* with skips
+    type H<'i> = RepMinMax<Insens<'i, LAB>, WS, 1, 0, 3>;     // ^"ab"{0,3}
+    let mut cases = 0u64;
+    for s in strings(&["a", "b", " ", "B"], 7) {
+        cases += 1;
+        let input = Position::from_start(&s);
+        let mut st = Stack::new();
+        let mut tr = Tracker::<Rule>::new(input);
+        if let Some((end, g)) = <G<'_> as TypedNode<Rule>>::try_parse_partial_with(input, &mut st, &mut tr) {
+            // the matched letters, in order, are the non-space characters of the consumed prefix
+            let want: Vec<char> = s[..end.byte_offset()].chars().filter(|c| *c != ' ').collect();
+            let got: Vec<char> = g.iter_matched().map(|c| if c._0().is_some() { 'a' } else { 'b' }).collect();
+            let got_all: Vec<char> = g.iter_all().map(|sk| if sk.matched._0().is_some() { 'a' } else { 'b' }).collect();
+            let n_all = g.iter_all().count();
+            let got_into: Vec<char> = g.clone().into_iter_matched().map(|c| if c._0().is_some() { 'a' } else { 'b' }).collect();
+            if got != want || got_into != want || got_all != want || n_all != want.len() || g.content.len() != want.len() {
+                println!("NB-RESULT name=nb_acc_rep status=fail cases={} key=input={:?} detail=iter_matched {:?}, expected {:?}", cases, s, got, want); return;
+            }
+        }
+        let mut st = Stack::new();
+        let mut tr = Tracker::<Rule>::new(input);
+        if let Some((end, h)) = <H<'_> as TypedNode<Rule>>::try_parse_partial_with(input, &mut st, &mut tr) {
+            // the spellings, concatenated with the skipped blanks, are the consumed text
+            let spell: String = h.iter_matched().map(|i| i.content).collect();
+            let want: String = s[..end.byte_offset()].chars().filter(|c| *c != ' ').collect();
+            if spell != want || h.iter_matched().count() > 3 { println!("NB-RESULT name=nb_acc_rep status=fail cases={} key=input={:?} detail=spellings {:?}, expected {:?}", cases, s, spell, want); return; }
+        }
+    }
+    println!("NB-RESULT name=nb_acc_rep status=ok cases={} key=- detail=iter_matched / into_iter_matched / iter_all in input order for (a|b)* and ^\"ab\"{{0,3}} on all strings<=7 chars over {{a,b,B,space}}", cases);
+}
+
+// ---- C18: results are deterministic values, stable under clone / eq / hash ------------------------------------------
+fn hash_of<T: std::hash::Hash>(t: &T) -> u64 { use std::hash::Hasher; let mut h = std::collections::hash_map::DefaultHasher::new(); t.hash(&mut h); h.finish() }
+fn det<'i, G: TypedNode<'i, Rule> + std::hash::Hash + std::fmt::Debug>(s: &'i str, a: usize, b: usize) -> Option<(G, usize)> {
+    let span = Span::new(s, a, b)?;
+    let input = span.as_input();
+    let mut st = Stack::new();
+    let mut tr = Tracker::<Rule>::new(input);
+    G::try_parse_partial_with(input, &mut st, &mut tr).map(|(i, g)| (g, i.byte_offset()))
+}
+fn det_check<'i, G: TypedNode<'i, Rule> + std::hash::Hash + std::fmt::Debug>(s: &'i str, cases: &mut u64) -> Result<(), String> {
+    let bs: Vec<usize> = (0..=s.len()).filter(|&i| s.is_char_boundary(i)).collect();
+    let mut results = Vec::new();
+    for &a in &bs { for &b in &bs { if a <= b {
+        *cases += 1;
+        // interleave other parses between the two runs: no state is kept between calls
+        let r1 = det::<G>(s, a, b);
+        let _ = det::<G>(s, 0, s.len());
+        let r2 = det::<G>(s, a, b);
+        match (&r1, &r2) {
+            (None, None) => {}
+            (Some((g1, o1)), Some((g2, o2))) => {
+                if !(g1 == g2 && o1 == o2 && hash_of(g1) == hash_of(g2)) { return Err(format!("input={:?},span={}..{} detail=two parses of the same input differ", s, a, b)); }
+                let c = g1.clone();
+                if !(c == *g1 && hash_of(&c) == hash_of(g1) && format!("{:?}", c) == format!("{:?}", g1)) { return Err(format!("input={:?},span={}..{} detail=clone differs from original", s, a, b)); }
+            }
+            _ => return Err(format!("input={:?},span={}..{} detail=verdict differs between two parses", s, a, b)),
+        }
+        if let Some((g, _)) = r1 { results.push(((a, b), g)); }
+    } } }
+    // results from different sub-ranges of one string: equal exactly when structurally identical (same Debug)
+    for (k1, g1) in &results { for (k2, g2) in &results {
+        *cases += 1;
+        let same_dbg = format!("{:?}", g1) == format!("{:?}", g2);
+        if (g1 == g2) != same_dbg { return Err(format!("input={:?},spans={:?},{:?} detail=eq {} but Debug-equal {}", s, k1, k2, g1 == g2, same_dbg)); }
+        if g1 == g2 && hash_of(g1) != hash_of(g2) { return Err(format!("input={:?},spans={:?},{:?} detail=equal values hash differently", s, k1, k2)); }
+    } }
+    Ok(())
+}
+#[test]
+fn nb_determinism() {
+    let mut cases = 0u64;
+    for s in strings(&["a", "b", " "], 5) {
+        let r = det_check::<GSeq3>(&s, &mut cases)
+            .and_then(|_| det_check::<GRepCh>(&s, &mut cases))
+            .and_then(|_| det_check::<GPushPop<'_>>(&s, &mut cases))
+            .and_then(|_| det_check::<GNest>(&s, &mut cases));
+        if let Err(e) = r { println!("NB-RESULT name=nb_determinism status=fail cases={} key={}", cases, e); return; }
+    }
+    println!("NB-RESULT name=nb_determinism status=ok cases={} key=- detail=4 grammars x all strings<=5 chars over {{a,b,space}} x all sub-ranges: repeated parse, clone, ==, hash, Debug", cases);
+}
